@@ -5,6 +5,6 @@ CONSTANT Configs <- ConfigsReach
 CONSTANT Ops <- OpsRd
 CONSTANT MSizes <- SizesReach
 CONSTANT Depth <- DepthRd
-CONSTANT Advs <- AdvsRd
+CONSTANT Advs <- AdvsReach
 INVARIANT NoLeakedChain
 CHECK_DEADLOCK FALSE
